@@ -61,11 +61,16 @@ CONFIGS = {
 }
 
 
-def settle(params, k):
-  """Steady traffic level k for 12 smoothing windows; returns a verdict dict."""
+def settle(params, k, prefix=None):
+  """Steady traffic level k for 12 smoothing windows; returns a verdict dict.  prefix 'crash-leave': before the traffic starts an
+  active member's channel closes and the member then leaves the server set (no request has noticed the closed channel)."""
   world.reset()
   w = lbharness.LbWorld(params)
   lp = vloop.loop()
+  if prefix == 'crash-leave':
+    e = w.active_eps()[0]
+    w.apply(['Down', e, []])
+    w.apply(['Leave', e, []])
   for _ in range(k):
     w.apply(['D', []])
   steps = int(12 * 5 / 0.1)
@@ -81,17 +86,18 @@ def settle(params, k):
     if w.viol:
       break
   size = len(w.heap_nodes())
-  mn, mx = params['min_size'], min(params['max_size'], params['n'])
+  members = len(w.members)
+  mn, mx = min(params['min_size'], members), min(params['max_size'], members)
   load = (w.lb._ema.value / size) if size else float('inf')
   viol = [v for v in w.viol if v['clause'].startswith(PREFIXES)]
   inside = params['min_load'] < load < params['max_load']
-  pinned = size <= mn or size >= mx
+  pinned = size == mn or size >= mx
   if k > 0 and not (inside or pinned):
     viol.append({'clause': 'C06.settle', 'sig': {},
-                 'message': 'steady level k=%d for 12 windows: size %d (min %d, max %d), per-member load %.3f outside (%.2f, %.2f); sizes over time %r'
-                 % (k, size, mn, mx, load, params['min_load'], params['max_load'], sizes[::60])})
+                 'message': '%ssteady level k=%d for 12 windows: size %d (min %d, max %d), per-member load %.3f outside (%.2f, %.2f); sizes over time %r'
+                 % ('an active member\'s channel closed and it left the server set, then ' if prefix else '', k, size, mn, mx, load, params['min_load'], params['max_load'], sizes[::60])})
   return {'k': k, 'size': size, 'load': round(load, 4), 'inside': inside, 'pinned': pinned, 'viol': viol,
-          'steps': steps, 'params': params}
+          'steps': steps, 'params': params, 'prefix': prefix}
 
 
 def settle_configs(tier):
@@ -121,6 +127,8 @@ def main(tier, seed):
       top = int(2 * c['max_load'] * c['n'])
       for k in range(0, top + 1):
         jobs.append((c, k))
+        if k <= 2 and c['n'] > c['min_size']:
+          jobs.append((c, k, 'crash-leave'))
     out = explore.pmap('vt.checks.c06', 'settle', jobs, pool, seed)
     nin = sum(1 for o in out if o['inside'])
     npin = sum(1 for o in out if o['pinned'] and not o['inside'])
